@@ -109,6 +109,19 @@ class Run:
             by.setdefault(r["id"], []).append(r)
         return by
 
+    def validate_with(self, module, traces, constants, count=True):
+        """Like validate, with constants for the trace specification."""
+        t = time.time()
+        slim = [{k: v for k, v in tr.items() if not k.startswith("_") and k != "family"} for tr in traces]
+        rej, n = tlc.validate(module, slim, self.scratch, shards=self.workers, constants=constants)
+        if count:
+            self.traces_validated += n
+        self.extra["validate_s"] = round(self.extra.get("validate_s", 0) + time.time() - t, 1)
+        by = {}
+        for r in rej:
+            by.setdefault(r["id"], []).append(r)
+        return by
+
     # ------------------------------------------------------------ verdicts
     def violation(self, case, trace, rejections, family="query"):
         """Record a rejected execution that no known finding covers."""
